@@ -37,6 +37,13 @@ CHECKS = {
             "(scripted condition per trigger) under direct, nested (re-dispatch from the wrapped listener) and queued triggers; the cover runs on "
             "the real helpers (created as temporaries) over EventDispatcher/EventQueue worlds; TraceDQ.tla demands exactly the promised invocations.",
             "TLA+ model checking (TLC) of the reference model + transition-cover replay + TLC trace validation"),
+    "C17": (MC, "7/C17", "seq",
+            "AnyData.tla is the reference model of boxes (holds / moved-from, value, chain of moves, queue round trip) with the ledger 'every held "
+            "object destroyed exactly once' checked by TLC (the defect 'relocate' violates it); the cover runs for EVERY stored size from 1 byte to "
+            "capacity+17 (incl. capacity-1, capacity, capacity+1 and the sizeof(LargeData) floor) and for trivial, tracked non-trivial (self pointer "
+            "+ live-address registry), move-only and shared_ptr-owning types, each box in its own heap block under ASan; TraceAnyData.tla judges "
+            "values, address stability, isType and the live-object ledger; a moved-from box may keep a moved-from object or be hollow.",
+            "TLA+ model checking (TLC) of the reference model + transition-cover replay over a size x kind matrix + TLC trace validation"),
     "C18": (MC, "7/C18", "seq",
             "AnyId.tla transcribes ==, < and the hash of anyid.h over ids [digest, value] with colliding digests and states the laws (== an "
             "equivalence, < a strict weak order whose incomparability is ==, equal ids hash equally, map lookups find exactly the equal ids) as "
@@ -64,6 +71,15 @@ CHECKS = {
             "histories incl. operations issued from listeners and predicates; transition cover replayed on the real EventQueue; TraceDQ.tla is the "
             "exactly-once / FIFO / put-back-in-front / results oracle for each recorded execution.",
             "TLA+ model checking (TLC) + transition-cover replay of re-entrant queue programs + TLC trace validation"),
+    "C08": (MC, "7/C08", "seq",
+            "The lifetime ledger is part of the abstract specs (TraceCL / TraceDQ / TraceObj): every recorded event carries the number of live "
+            "tracked callback objects and live tracked argument objects; it must equal the listed callbacks / queued events whenever no invocation "
+            "runs, may exceed it by at most the callbacks removed during running invocations, and must be zero after destruction. The models add "
+            "what lifetime depends on: removal during invocation and the shared_ptr cascade (CLImpl invariants NoLeak/Pinned), clearEvents, "
+            "takeEvent, recycled slots, processing calls left by exceptions, destruction with events still pending (DQImpl), copies, moves, swaps "
+            "and destruction of whole objects (ObjGen). Tracked types also keep a registry of live addresses (double destruction / use after "
+            "destruction is recorded as an event no specification accepts); LeakSanitizer runs on every interpreter process.",
+            "TLA+ model checking (TLC) + transition-cover replay with instance-counting types + TLC trace validation of the lifetime ledger"),
     "C09": ("fault_enumeration", "7/C09", "seq",
             "The models (CLImpl, DQImpl) contain 'the running user code throws' as an operation, so TLC enumerates a throw at every position of "
             "every bounded re-entrant history and the abstract specs say what must remain (lists as the callbacks left them, only the taken batch "
@@ -121,6 +137,14 @@ CHECKS = {
             "time-out with no DisableQueueNotify) implies complete consumption of everything enqueued before the call began. The single-threaded "
             "form (observer is a listener) is decided by C05's cover through TraceDQ.tla.",
             "TLA+ model checking (TLC) + systematic schedule exploration of the real code + TLC trace validation"),
+    "C20": (MC, "7/C20", "seq",
+            "The implementation-shaped models carry the configuration hazards as explicit nondeterminism / defects (argument evaluation order and "
+            "implicit move in the dispatch path, indeterminate counters of copied queues) and TLC shows the properties hold only without them. "
+            "The covers of C02 (lists), C04 (dispatch), C05 (queue) and C10 (objects in pre-filled storage) are replayed in cells of {g++, clang++} "
+            "x {C++11,14,17,20} x {-O0,-O2} x Threading x Map x key type x storage pattern (quick: 4 seeded cells per group, thorough: all 16); "
+            "every trace must be accepted by the same abstract spec AND the observable traces of one script set must be byte-identical across "
+            "the cells of a group (ledger counters excluded).",
+            "TLA+ model checking (TLC) + cover replay across a compiler/standard/optimisation/policy matrix + TLC trace validation + cross-cell trace equality"),
 }
 
 NOT_YET = "check not built yet in this round (see DESIGN.md section 11 for the build order); no claim is made"
